@@ -1,6 +1,7 @@
 import AffVerif.Proofs.CacheReduce
 import AffVerif.Props.C04
 import AffVerif.Props.C03
+import AffVerif.Proofs.MirrorSound
 /-!
 # C05 — cached feasibility data stays sound under every operation history
 
@@ -144,6 +145,39 @@ theorem C05_trusting_sweep_sound {σ : Type} (tol : α) (n m m' : Nat) (t t' : P
     PT.eval (infeasibleElimination tol O n t' s).1 x = PT.eval t' x :=
   let r := C05_history tol n m m' t t' h hs
   C03_elim_sound tol O hlp n m' t' s x r.1 r.2.1
+
+/-! ### the witness-repair heuristic itself -/
+
+/-- `mirror_points` (model of the code's loop, any number of rounds, candidates and dimensions; `norms` are the row
+    norms `normalize` divides by): every returned point lies in the polytope it was asked for -/
+theorem C05_mirror_points_sound (eps fac : α) (heps : 0 ≤ eps) (p : Aff α) (norms : List (Option α))
+    (hlen : norms.length = p.rows.length) (hpos : ∀ o ∈ norms, ∀ k, o = some k → 0 < k)
+    (pts : List (List α)) (n : Nat) (res : List (List α)) (j : Nat)
+    (h : mirrorPoints eps fac p norms pts n = some (res, j)) :
+    res ≠ [] ∧ j < n ∧ ∀ x ∈ res, Poly.Mem p x ∧ ∀ tol, 0 ≤ tol → Poly.containsTol tol p x = true :=
+  mirrorPoints_sound eps fac heps p norms hlen hpos pts n res j h
+
+/-- the oracle that runs the model of `mirror_points` -/
+def modelMirror {σ : Type} (eps fac : α) (norms : Aff α → List (Option α)) : MirrorOracle σ α :=
+  fun s _ poly ws k => ((mirrorPoints eps fac poly (norms poly) ws k).map (·.1), s)
+
+/-- the contract `MirrorSound` that `C05_elim` assumes of the heuristic holds for the model of the heuristic -/
+theorem C05_model_mirror_sound {σ : Type} (tol eps fac : α) (htol : 0 ≤ tol) (heps : 0 ≤ eps)
+    (norms : Aff α → List (Option α))
+    (hn : ∀ p : Aff α, (norms p).length = p.rows.length ∧ ∀ o ∈ norms p, ∀ k, o = some k → 0 < k) :
+    MirrorSound (σ := σ) tol (modelMirror eps fac norms) := by
+  intro s node poly ws k pts s' h
+  unfold modelMirror at h
+  simp only [Prod.mk.injEq] at h
+  cases hm : mirrorPoints eps fac poly (norms poly) ws k with
+  | none => rw [hm] at h; simp at h
+  | some r =>
+    obtain ⟨res, j⟩ := r
+    rw [hm] at h
+    simp only [Option.map_some, Option.some.injEq] at h
+    obtain ⟨rfl, _⟩ := h
+    intro x hx
+    exact ((mirrorPoints_sound eps fac heps poly (norms poly) (hn poly).1 (hn poly).2 ws k res j hm).2.2 x hx).2 tol htol
 
 /-- non-vacuity: a tree with a stored witness and a cached `Feasible` state satisfies the invariant -/
 def exCache : PT Rat :=
